@@ -3,6 +3,7 @@
 (* Range comprehensions and sums over ranges (C17, second half).            *)
 (*   [x for x in range(a, b, s) if f1 (and f2)]    with constant a, b, s      *)
 (*   sum(range(a, b)), sum([x * c for x in range(a, b)])                     *)
+(*   sum(x * c for x in range(a, b) if f1)                                   *)
 (*   sum(range(n + d)) with a symbolic n: expected value for every n in Box  *)
 (* The expected list / value is computed here from the definition of range;  *)
 (* the harness lets the rules rewrite the rendered expression and compares   *)
@@ -50,6 +51,10 @@ Cases ==
     \cup {[kind |-> "sumcomp", a |-> a, b |-> b, s |-> m, fs |-> <<>>,
            exp |-> <<SumSeq([i \in 1..Len(RangeSeq(a, b, 1)) |-> RangeSeq(a, b, 1)[i] * m])>>] :
         a \in Starts, b \in Stops, m \in Mults}
+    \* sums over a comprehension WITH filters: the closed forms only hold for the unfiltered range
+    \cup {[kind |-> "sumfilt", a |-> a, b |-> b, s |-> m, fs |-> fs,
+           exp |-> LET F == Filt(RangeSeq(a, b, 1), fs) IN <<SumSeq([i \in 1..Len(F) |-> F[i] * m])>>] :
+        a \in Starts, b \in Stops, m \in Mults, fs \in Filters1}
     \cup {[kind |-> fk, a |-> 0, b |-> 0, s |-> 1, fs |-> <<>>, lit |-> q,
            exp |-> <<IF fk = "sumlit" THEN SumSeq(q) ELSE Len(q)>>] :
         fk \in {"sumlit", "lenlit"}, q \in UNION {[1..n -> Mults \cup {0}] : n \in 0..3}}
